@@ -657,7 +657,8 @@ pub fn configs(thorough: bool) -> Vec<PairCfg> {
     // Maximum Packet Size = exactly the largest workload packet (PUBLISH QoS>0, topic 'bb', 2-byte payload: 1+1+4+2+1+2)
     v.push(PairCfg { mps: Some(11), ..base(Ver::V5, "mps=11 (largest workload packet)") });
     if thorough {
-        v.push(PairCfg { mps: Some(11), tam: 2, alias_mode: 1, rm_c: Some(1), rm_s: Some(1), losses: 1, ..base(Ver::V5, "mps=11 tam=2 auto-map rm=1/1") });
+        // all limits at once: the size limit must also admit the CONNACK that announces them (16 bytes)
+        v.push(PairCfg { mps: Some(16), tam: 2, alias_mode: 1, rm_c: Some(1), rm_s: Some(1), losses: 1, ..base(Ver::V5, "mps=16 tam=2 auto-map rm=1/1") });
         // four operations, no partial delivery, one loss
         for ver in [Ver::V4, Ver::V5] {
             v.push(PairCfg { ops_total: 4, ops_per_side: 3, partials: 0, losses: 1, ..base(ver, "auto/auto 4 ops") });
@@ -673,7 +674,8 @@ pub fn run(rep: &mut Report) {
     for cfg in cfgs {
         let name = cfg.name.clone();
         let w = Pair::<u16>::new(Arc::new(cfg));
-        let lim = if thorough { Limits::new(400, 6_000_000, (2400.0 / n).max(60.0)) } else { Limits::new(400, 400_000, 8.0) };
+        let mut lim = if thorough { Limits::new(400, 3_000_000, (1800.0 / n).max(45.0)) } else { Limits::new(400, 400_000, 8.0) };
+        lim.rss_mb = 24_000;
         let mut ex = Explorer::new(&name, lim, rep);
         ex.record_delivery_edges = true;
         let st = ex.run(w);
